@@ -5,6 +5,7 @@ import (
 	"go/token"
 	"go/types"
 	"sort"
+	"strings"
 
 	"gedverif/internal/load"
 	"gedverif/internal/oblig"
@@ -136,6 +137,123 @@ func c15Errors(p *load.Prog, r *oblig.Run) {
 				o.Fail(bad)
 			} else {
 				o.OK("the error side returns an error")
+			}
+		}
+	}
+}
+
+// c15NilResults (R15.f): the formatters run outside the recover of the query
+// engine, and a query result (or an element of one) can be a typed nil pointer
+// (.Birth of an individual without a birth). Before a formatter calls a method
+// on a result through an interface it asserted from interface{}, the value must
+// have passed gedcom.IsNil on every path.
+func c15NilResults(p *load.Prog, r *oblig.Run) {
+	r.Rule("R15.f", "a formatter calls interface methods on a query result only after gedcom.IsNil ruled out a (typed) nil", 2)
+	isNil := p.Func(load.PkgRoot, "IsNil")
+	if isNil == nil {
+		r.Add("R15.f", "anchor", "-", "anchor").Unknown("gedcom.IsNil not found")
+		return
+	}
+	// scope: functions of package q reachable (inside q) from the Write methods of the formatters
+	scope := map[*ssa.Function]bool{}
+	var work []*ssa.Function
+	for _, fn := range p.Repo {
+		if pkgPathOf(fn) == load.PkgQ && fn.Name() == "Write" && fn.Signature.Recv() != nil && fn.Synthetic == "" {
+			if n := load.NamedOf(fn.Signature.Recv().Type()); n != nil && strings.HasSuffix(n.Obj().Name(), "Formatter") {
+				scope[fn] = true
+				work = append(work, fn)
+			}
+		}
+	}
+	for len(work) > 0 {
+		fn := work[len(work)-1]
+		work = work[:len(work)-1]
+		for _, c := range su.Calls(fn) {
+			if cal := c.Common().StaticCallee(); cal != nil && pkgPathOf(cal) == load.PkgQ && len(cal.Blocks) > 0 && !scope[cal] {
+				scope[cal] = true
+				work = append(work, cal)
+			}
+		}
+	}
+	var fns []*ssa.Function
+	for f := range scope {
+		fns = append(fns, f)
+	}
+	sort.Slice(fns, func(i, j int) bool { return fns[i].String() < fns[j].String() })
+	for _, fn := range fns {
+		// IsNil guards of this function: value -> blocks dominated by the false edge
+		type guard struct {
+			v   ssa.Value
+			blk *ssa.BasicBlock
+		}
+		var guards []guard
+		for _, b := range fn.Blocks {
+			iff, ok := b.Instrs[len(b.Instrs)-1].(*ssa.If)
+			if !ok {
+				continue
+			}
+			cond := iff.Cond
+			neg := false
+			if u, isNot := cond.(*ssa.UnOp); isNot && u.Op == token.NOT {
+				cond, neg = u.X, true
+			}
+			c, ok := cond.(*ssa.Call)
+			if !ok || c.Call.StaticCallee() != isNil || len(c.Call.Args) != 1 {
+				continue
+			}
+			safe := b.Succs[1]
+			if neg {
+				safe = b.Succs[0]
+			}
+			if len(safe.Preds) == 1 {
+				guards = append(guards, guard{su.Strip(c.Call.Args[0]), safe})
+			}
+		}
+		ord := 0
+		for _, b := range fn.Blocks {
+			for _, ins := range b.Instrs {
+				ta, ok := ins.(*ssa.TypeAssert)
+				if !ok {
+					continue
+				}
+				src, isIface := ta.X.Type().Underlying().(*types.Interface)
+				dst, isIface2 := ta.AssertedType.Underlying().(*types.Interface)
+				if !isIface || !isIface2 || src.NumMethods() != 0 || dst.NumMethods() == 0 {
+					continue
+				}
+				// invokes on the asserted value
+				var vals []ssa.Value
+				if ta.CommaOk {
+					for _, ref := range *ta.Referrers() {
+						if ex, ok := ref.(*ssa.Extract); ok && ex.Index == 0 {
+							vals = append(vals, ex)
+						}
+					}
+				} else {
+					vals = append(vals, ta)
+				}
+				for _, v := range vals {
+					for _, ref := range *v.Referrers() {
+						c, ok := ref.(ssa.CallInstruction)
+						if !ok || !c.Common().IsInvoke() || c.Common().Value != v {
+							continue
+						}
+						ord++
+						key := fmt.Sprintf("%s on a result in %s #%d", c.Common().Method.Name(), load.FuncName(fn), ord)
+						o := r.Add("R15.f", key, p.Pos(c.Pos()), "interface call on a query result outside the engine's recover")
+						okG := false
+						for _, g := range guards {
+							if (g.v == su.Strip(ta.X) || g.v == v) && (g.blk == c.Block() || g.blk.Dominates(c.Block())) {
+								okG = true
+							}
+						}
+						if okG {
+							o.OK("after gedcom.IsNil ruled out nil")
+						} else {
+							o.Fail("." + c.Common().Method.Name() + "() is called on a query result that was only asserted to " + types.TypeString(ta.AssertedType, nil) + ": a typed nil pointer (the .Birth/.Death/.Baptism of an individual that has none, or a nil element of a list) passes the assertion and the method dereferences it - a panic outside the recover of Engine.Evaluate")
+						}
+					}
+				}
 			}
 		}
 	}
